@@ -59,4 +59,11 @@ theorem argtopnPartial_iff (n N : Int) (hn : n ≠ 0) : argtopnPartialBranch n N
     · simp [show ¬ (0 ≤ n) by omega, show ¬ (0 < n) by omega]
     · simp [show ¬ (n < N) by omega]
 
+
+/-- `topn_pipeline(…, predicts_ratings=…)`: `"raw"` — a truthy value — selects the predictor *without* a fallback (0); any other truthy
+    value the predictor with the bias fallback (1); a falsy one no predictor (2) -/
+theorem topnPredicts_dispatch (k : Int) (hk : k ≠ 0) :
+    topnPredictsBranch true (some k) = 0 ∧ topnPredictsBranch false (some k) = 1 ∧ topnPredictsBranch false none = 2 ∧ topnPredictsBranch false (some 0) = 2 := by
+  simp [topnPredictsBranch, LK.Py.truthy, hk]
+
 end LK.Gen.GuardsC03
